@@ -1,4 +1,5 @@
 import AaVerif.Flags
+import AaVerif.FlagsText
 /-!
 # C05 — build mode and flags manifests, and nothing else, determine profile flags
 
@@ -167,5 +168,68 @@ example : WF "profile foo @{exec_path} flags=(attach_disconnected,complain) {".t
   · decide +kernel
   · decide +kernel
 example : WF "  profile bar {".toList := by decide +kernel
+
+/-! ## Every block of every text -/
+
+/-- what one of the two builders does to the line at position `i` of a text -/
+theorem builder_line (f : List Char → List Char) (hf : ∀ {l}, nl ∉ l → nl ∉ f l) (t : List Char) :
+    let src := splitNl t
+    let out := splitNl (joinNl (mapHeaderLines f src))
+    out.length = src.length ∧
+    ∀ (i : Nat) (h : i < src.length) (h' : i < out.length),
+      out[i] = if i + 1 < src.length ∧ endsBrace src[i] = true then f src[i] else src[i] := by
+  intro src out
+  have e : out = mapHeaderLines f src :=
+    split_join _ (mapHeaderLines_ne_nil _ (splitNl_ne_nil t)) (mapHeaderLines_no_nl hf _ (split_lines_no_nl t))
+  refine ⟨by rw [e, mapHeaderLines_length], fun i h h' => ?_⟩
+  have := mapHeaderLines_get f src i h
+  simp only [e]
+  exact this
+
+/-- **complain build, every block of every text.**  The built text has the same lines at the same
+positions.  A block header (a line ending in ` {` that is followed by a newline) is in complain mode
+afterwards and keeps exactly its other flags, in order; every other line is the source line. -/
+theorem C05_complain_every_block (t : List Char) :
+    (splitNl (complain t)).length = (splitNl t).length ∧
+    ∀ (i : Nat) (h : i < (splitNl t).length) (h' : i < (splitNl (complain t)).length),
+      ((i + 1 < (splitNl t).length ∧ endsBrace (splitNl t)[i] = true) → WF (splitNl t)[i] →
+          complainW ∈ flagsOf (splitNl (complain t))[i] ∧
+          (flagsOf (splitNl (complain t))[i]).erase complainW = (flagsOf (splitNl t)[i]).erase complainW) ∧
+      (¬ (i + 1 < (splitNl t).length ∧ endsBrace (splitNl t)[i] = true) → (splitNl (complain t))[i] = (splitNl t)[i]) := by
+  obtain ⟨hl, hg⟩ := builder_line complainLine (fun h => complainLine_no_nl h) t
+  refine ⟨hl, fun i h h' => ⟨fun hh hwf => ?_, fun hn => ?_⟩⟩
+  · have := hg i h h'
+    rw [if_pos hh] at this
+    unfold complain
+    rw [this]
+    exact ⟨C05_complain_sets _ hwf, C05_complain_keeps_other_flags _ hwf⟩
+  · have := hg i h h'
+    rw [if_neg hn] at this
+    exact this
+
+/-- **enforce build, every block of every text** (flags written once each in the header). -/
+theorem C05_enforce_every_block (t : List Char) :
+    (splitNl (enforce t)).length = (splitNl t).length ∧
+    ∀ (i : Nat) (h : i < (splitNl t).length) (h' : i < (splitNl (enforce t)).length),
+      ((i + 1 < (splitNl t).length ∧ endsBrace (splitNl t)[i] = true) → WF (splitNl t)[i] →
+          (flagsOf (splitNl t)[i]).Nodup →
+          complainW ∉ flagsOf (splitNl (enforce t))[i] ∧
+          (flagsOf (splitNl (enforce t))[i]).erase complainW = (flagsOf (splitNl t)[i]).erase complainW) ∧
+      (¬ (i + 1 < (splitNl t).length ∧ endsBrace (splitNl t)[i] = true) → (splitNl (enforce t))[i] = (splitNl t)[i]) := by
+  obtain ⟨hl, hg⟩ := builder_line enforceLine (fun h => enforceLine_no_nl h) t
+  refine ⟨hl, fun i h h' => ⟨fun hh hwf hd => ?_, fun hn => ?_⟩⟩
+  · have := hg i h h'
+    rw [if_pos hh] at this
+    unfold enforce
+    rw [this]
+    exact ⟨C05_enforce_unsets _ hwf hd, C05_enforce_keeps_other_flags _ hwf hd⟩
+  · have := hg i h h'
+    rw [if_neg hn] at this
+    exact this
+
+/-- a text with a main profile, a sub-profile and a hat whose flags differ: all three blocks -/
+example : splitNl (complain "profile a flags=(attach_disconnected) {\n  profile b {\n  }\n  ^hat flags=(complain) {\n  }\n}\n".toList)
+    = ["profile a  flags=(attach_disconnected,complain) {".toList, "  profile b flags=(complain) {".toList, "  }".toList,
+       "  ^hat flags=(complain) {".toList, "  }".toList, "}".toList, []] := by decide +kernel
 
 end C05
